@@ -209,6 +209,89 @@ theorem resolved_closed (H : Hierarchy) (hwf : Wf H) (hp : PrecedenceAgrees H)
       rw [hlen.2 a ha] at hwa
       simp at hwa
 
+/-! ### A class subscribed with its own type variables
+
+  `class Swapped(Pair[V, K], Generic[K, V])`, `Pair[V, K]` used as a type: argument
+  and parameter are the *same* TypeVar objects.  Only the arrangement in the
+  class's own order (`Pair[K, V]`) substitutes nothing; every other arrangement
+  (a permutation, `Pair[K, K]`, ...) is a genuine renaming, on the resolver side
+  and on the specification side alike.  All three statements hold for every class
+  table (no side condition), any arity and any list of type variables. -/
+
+/-- **Identity parametrisation.**  Subscribed with its own type variables in
+    their own order, a class has exactly the members `_get_members_by_parents`
+    computes for it: nothing is substituted. -/
+theorem own_params_identity (H : Hierarchy) (c : Nat) (k : Key) :
+    (resolve H ⟨c, some ((H.cls c).params.map Hint.tv)⟩).lookup k
+      = (byParents H H.classes.length c).lookup k := by
+  unfold resolve
+  rw [getResolvedWith_lookup]
+  simp only [effArgs, zip_map_tv_eq_idSubst, Hint.subst_idSubst]
+  cases (byParents H H.classes.length c).lookup k <;> rfl
+
+/-- **Any other arrangement renames.**  Subscribed with an arbitrary list `vs`
+    of type variables — in particular its own ones in another order — the
+    class has the members of the identity parametrisation with parameter `i`
+    renamed to `vs[i]`, simultaneously.  (`_get_type_var_to_actual` pairs
+    parameters and arguments *by position*; which TypeVar objects the arguments
+    are plays no role.) -/
+theorem own_params_rearranged (H : Hierarchy) (c : Nat) (vs : List TVar) (k : Key) :
+    (resolve H ⟨c, some (vs.map Hint.tv)⟩).lookup k
+      = ((resolve H ⟨c, some ((H.cls c).params.map Hint.tv)⟩).lookup k).map
+          (·.subst ((H.cls c).params.zip (vs.map Hint.tv))) := by
+  rw [own_params_identity]
+  unfold resolve
+  rw [getResolvedWith_lookup]
+  rfl
+
+/-- The specification agrees: the declared type under a re-arrangement of the
+    class's own type variables is the declared type relative to the own
+    parameters, renamed by position. -/
+theorem declared_own_params_rearranged (H : Hierarchy) (hwf : Wf H) (c : Nat)
+    (hc : c < H.classes.length) (vs : List TVar) (k : Key) :
+    declaredType H ⟨c, some (vs.map Hint.tv)⟩ k
+      = (declaredType H ⟨c, some ((H.cls c).params.map Hint.tv)⟩ k).map
+          (·.subst ((H.cls c).params.zip (vs.map Hint.tv))) := by
+  have hnil : ∀ as : List Hint, as.map (·.subst []) = as :=
+    fun as => List.map_id'' (fun a => Hint.subst_nil a) as
+  unfold declaredType bindBase
+  simp only [hnil, zip_map_tv_eq_idSubst]
+  exact declaredAt_comp hwf (H.classes.length + 1) c _ k hc
+
+theorem pair_swapped_values :
+    resolve pairSwapped ⟨0, some [.tv 1, .tv 0]⟩ = [("first", .tv 1), ("second", .tv 0)] ∧
+    resolve pairSwapped ⟨0, some [.tv 0, .tv 1]⟩ = [("first", .tv 0), ("second", .tv 1)] := by decide
+
+/-- **The order of the arguments matters even when they are the class's own
+    type variables**: "the arguments are exactly the own type variables, so
+    there is nothing to substitute" is unsound as soon as the comparison ignores
+    the order (`Pair[V, K]` is not `Pair[K, V]`). -/
+theorem own_params_order_matters :
+    ¬ (∀ (H : Hierarchy) (c : Nat) (vs : List TVar), Wf H → vs.Perm (H.cls c).params →
+        resolve H ⟨c, some (vs.map Hint.tv)⟩ = resolve H ⟨c, some ((H.cls c).params.map Hint.tv)⟩) := by
+  intro h
+  have := h pairSwapped 0 [1, 0] (by decide) (List.Perm.swap 0 1 [])
+  have hv := pair_swapped_values
+  simp only [List.map_cons, List.map_nil] at this
+  rw [hv.1] at this
+  have h2 : (pairSwapped.cls 0).params.map Hint.tv = [.tv 0, .tv 1] := by decide
+  rw [h2, hv.2] at this
+  exact absurd this (by decide)
+
+/-- Non-vacuity: the swapped hierarchy satisfies every hypothesis of the main
+    theorem, and closed parametrisations come out swapped once / twice. -/
+example : Wf pairSwapped ∧ PrecedenceAgrees pairSwapped ∧ OverrideVisible pairSwapped ∧
+    MroMonotone pairSwapped ∧ NoConflict pairSwapped := by decide
+
+-- Swapped[int, str] is Pair[str, int]
+example : resolve pairSwapped ⟨1, some [intH, strH]⟩ = [("first", strH), ("second", intH)] := by decide
+
+-- SwappedDeep[int, str] is Swapped[str, int] is Pair[int, str]
+example : resolve pairSwapped ⟨2, some [intH, strH]⟩ =
+    [("first", intH), ("second", strH), ("tail", intH)] := by decide
+
+example : declaredType pairSwapped ⟨1, some [intH, strH]⟩ "first" = some strH := by decide
+
 /-! ### The full-strength statement is refuted by two concrete class tables -/
 
 theorem diamond_witness_wf : Wf diamondWitness ∧ OverrideVisible diamondWitness := by decide
